@@ -446,6 +446,10 @@ func (t *Trace) realFamily(n *Node, fam string) (string, error) {
 		})
 		return joinOrDash(out), err
 	case "running":
+		// the in-memory filter is reachable only through its snapshot: write it, read it, and put
+		// back whatever snapshot the database held before
+		var prev []byte
+		hadPrev := n.DB.Get(db.RunningEventFilter.Key(), func(v []byte) error { prev = append([]byte{}, v...); return nil }) == nil
 		if err := n.BC.WriteRunningEventFilter(); err != nil {
 			return "", err
 		}
@@ -453,7 +457,11 @@ func (t *Trace) realFamily(n *Node, fam string) (string, error) {
 		if err != nil {
 			return "", err
 		}
-		_ = n.DB.Delete(db.RunningEventFilter.Key())
+		if hadPrev {
+			_ = n.DB.Put(db.RunningEventFilter.Key(), prev)
+		} else {
+			_ = n.DB.Delete(db.RunningEventFilter.Key())
+		}
 		inner, err := rf.InnerFilter()
 		if err != nil {
 			return "", err
